@@ -18,7 +18,7 @@ from ..core import META, Ctx, RuleResult, rule
 from ..model import AnalysisError, Func, norm_stmt, parent
 from ..pattern import C, G, V, add, call, div, find_match, match, mul, neg, norm
 from ..terms import Term, alts, contains, ends_with_attrs, root_of, show, subterms
-from ..util import calls_in, deep_subterms, module_const, nodes_in
+from ..util import guard_leaves, calls_in, deep_subterms, module_const, nodes_in
 from .c01 import _check_sources
 from .common import EST, check_weights_pipeline, dispatch_table, estimator_sinks, weights_arg
 
@@ -162,7 +162,7 @@ def c02_2(ctx: Ctx) -> RuleResult:
         cur = parent(c)
         while cur is not None and cur is not f.node:
             if isinstance(cur, ast.If):
-                gt = norm(X.at(f, cur.test))
+                gt = norm(X.value_at(f, cur.test))
                 if any(x[0] == "cmp" and x[1] == "<" and x[2] == ("const", 0) and contains(x[3], lambda y: y[0] == "param" and "weight" in y[2]) for x in ctx.X.closure(gt)):
                     guard = True
             cur = parent(cur)
@@ -353,7 +353,7 @@ def c02_6(ctx: Ctx) -> RuleResult:
             ident = [a for a in als if a == g]
             merged_guard = False
             for n in nodes_in(h, ast.If):
-                if ends_with_attrs(X.at(h, n.test), "gradient", "merge_realizations") and any(isinstance(s, ast.Return) and ast.unparse(s.value) == ps[1] for s in n.body):
+                if ends_with_attrs(X.value_at(h, n.test), "gradient", "merge_realizations") and any(isinstance(s, ast.Return) and ast.unparse(s.value) == ps[1] for s in n.body):
                     merged_guard = True
             ok = dot_ok and (not ident or merged_guard) and len(als) <= 2
             res.add(h, h.node, "mean gradient == dot(gradients, weights); the merged gradient is passed through only under merge_realizations", ok,
@@ -389,15 +389,29 @@ def c02_6(ctx: Ctx) -> RuleResult:
                     ok = m2 is not None and core == comps["mean"] and m2["f"] == main["f"]
             res.add(h, h.node, "stddev gradient == (B/stddev) * (dot(grad, values*weights) - mean * dot(grad, weights))", ok,
                     "" if ok else f"stddev gradient is `{show(rt, 200)}`", construct=f"{c.name}: stddev gradient")
-            zero = any(a[0] == "ifexp" and match(a[2] if False else norm(a[2]), call("numpy.zeros", V("_"), dtype=V("_"))) is not None for a in alts(rt)) or any(
-                a[0] == "ifexp" for a in alts(rt))
+            # the division by the stddev happens only where a test on that stddev excludes zero
+            zero = False
+            if main is not None:
+                sd_t = main["sd"]
+                for conds, leaf in guard_leaves(X.guarded_return(h)):
+                    if match(norm(leaf), ref) is None:
+                        continue
+                    zero = False
+                    for atom, pol in conds:
+                        if not contains(atom, lambda s_: s_ == sd_t):
+                            continue
+                        # `eps < |sd|` must hold; `allclose(|sd|, 0)`, `sd == 0`, `|sd| < eps` must not
+                        away = atom[0] == "cmp" and atom[1] in ("<", "<=") and atom[2][0] == "const" and contains(atom[3], lambda s_: s_ == sd_t)
+                        zero = zero or (pol == away)
+                    if not zero:
+                        break
             res.add(h, h.node, "the stddev gradient is zero when the stddev is zero (no division by zero)", zero, "" if zero else "division by a zero stddev", construct=f"{c.name}: zero stddev")
         # stddev + merge rejected at construction
         init = c.methods.get("__init__")
         ok = False
         if init is not None:
             for n in nodes_in(init, ast.If):
-                tt = X.at(init, n.test)
+                tt = X.value_at(init, n.test)
                 if contains(tt, lambda s: s == ("const", "stddev")) and contains(tt, lambda s: s[0] == "attr" and s[2] == "merge_realizations") and any(isinstance(x, ast.Raise) for s in n.body for x in ast.walk(s)):
                     ok = True
         res.add(init or impl, (init or impl).node, "the stddev estimator rejects merge_realizations at construction", ok,
@@ -469,6 +483,8 @@ def c02_7(ctx: Ctx) -> RuleResult:
 
 def _value_alts(t: Term, stop=None) -> list:
     out = []
+    if stop is not None and stop(t):
+        return [t]
     for a in alts(t):
         if a[0] == "ifexp" and not (stop is not None and stop(a)):
             out += _value_alts(a[2], stop) + _value_alts(a[3], stop)
@@ -488,6 +504,21 @@ def _expanded_inner(ctx: Ctx, f: Func, a: Term, mask_p: Term):
         if hs and all(_is_expander(ctx, h) for h in hs) and len(a[2]) == 2 and a[2][1] == mask_p:
             return a[2][0]
         return None
+    def scatter_of(y):
+        """y == zeros(... mask.size ...)[..., mask] := g  ->  g"""
+        if y[0] != "update" or y[2] != ("root",):
+            return None
+        base, idx, val = y[1], y[3], y[4]
+        zeros = base[0] == "call" and base[1] == ("global", "numpy.zeros") and contains(base, lambda s: s == ("attr", mask_p, "size"))
+        return val if zeros and idx == ("tuple", (("const", Ellipsis), mask_p)) else None
+
+    if a[0] == "phi":
+        # the two alternatives merged at a join (if/else assigning one variable)
+        gs = {scatter_of(y) for y in a[1] if y[0] == "update"}
+        plain = {y for y in a[1] if y[0] != "update" and y != NONE_T}
+        if len(gs) == 1 and None not in gs and plain <= gs:
+            return next(iter(gs))
+        return None
     if a[0] != "ifexp":
         return None
     test, x, y = a[1], a[2], a[3]
@@ -495,13 +526,7 @@ def _expanded_inner(ctx: Ctx, f: Func, a: Term, mask_p: Term):
         x, y = y, x
     elif test != ("cmp", "is", mask_p, NONE_T):
         return None
-    if y[0] != "update" or y[2] != ("root",):
-        return None
-    base, idx, val = y[1], y[3], y[4]
-    zeros = base[0] == "call" and base[1] == ("global", "numpy.zeros") and contains(base, lambda s: s == ("attr", mask_p, "size"))
-    if zeros and idx == ("tuple", (("const", Ellipsis), mask_p)) and val == x:
-        return x
-    return None
+    return x if scatter_of(y) == x else None
 
 
 def _is_expander(ctx: Ctx, h: Func) -> bool:
